@@ -168,6 +168,16 @@ def gen(ctx):
                 c.add('tok %s %s %d' % (hexs(s), hexs(d), off), 'spec tok %s %s' % (hexs(d), hexs(s[off:])))
         c.add('tok %s %s %d' % (hexs(s), hexs(b','), n + 1), None, incontract=False)     # offset beyond the terminator
     fam['tok'] = c
+    # ---- qstr_comma_number (extra)
+    c = Cases()
+    nums = set(range(-1100, 1101)) | {2**31 - 1, -2**31, -2**31 + 1, 2**31 - 2}
+    for k in range(1, 10):
+        for d in (-1, 0, 1):
+            nums |= {10 ** k + d, -(10 ** k + d)}
+    nums |= {rng.randrange(-2**31, 2**31) for _ in range(300 if q else 3000)}
+    for n in sorted(nums):
+        c.add('comma %d' % n, 'spec comma %d' % n)
+    fam['comma'] = c
     return fam
 
 
@@ -255,6 +265,11 @@ def monitor(op, impl, spec):
             want[off + len(tok)] = 0
         if int(f[1]) != off or f[2] != st or int(f[3]) != off + int(sn) or f[4] != sstop or unhex(f[5]) != bytes(want):
             return bad('wrong-result', 'qstrtok field/stop/offset/buffer differ from the reference definition')
+    elif k == 'comma':
+        n = int(w[1])
+        if impl != spec or unhex(impl) != format(n, ',').encode():
+            return ({'op': 'comma', 'observed': 'wrong-result', 'input': 'INT_MIN' if n == -2**31 else 'other'},
+                    'qstr_comma_number(%d) is not the comma-grouped decimal number' % n)
     elif k == 'tokz':
         if impl != spec:
             return bad('wrong-result', 'qstrtokenizer fields differ from the reference definition')
@@ -323,7 +338,7 @@ def run(ctx, replay=None):
     try:
         ctx.cov['gcov_qstring'] = ctx.gcov('h_str', 'utilities/qstring.c',
             ['qstrtrim', 'qstrtrim_head', 'qstrtrim_tail', 'qstrunchar', 'qstrreplace', 'qstrcpy', 'qstrncpy', 'qstrdup_between', 'qmemdup',
-             'qstrgets', 'qstrrev', 'qstrupper', 'qstrlower', 'qstrtok', 'qstrtokenizer'])
+             'qstrgets', 'qstrrev', 'qstrupper', 'qstrlower', 'qstrtok', 'qstrtokenizer', 'qstr_comma_number'])
     except Exception as e:
         ctx.notes.append('gcov failed: %s' % e)
     ctx.cov['correspondence_mismatches'] = corr_bad
